@@ -844,3 +844,26 @@ _C06.append({'module': 'boltons.urlutils', 'qualname': 'unquote', 'lean_name': '
              'result': 'Str', 'tie_theorem': 'C06.src_unquote_eq_model', 'translator': 'py2lean_c06',
              'gen_file': 'urlutils_quote', 'c06': _C06_CFG})
 SPECS['C06'] = _C06
+
+
+# --- round 3f: C09, the list helpers of boltons/iterutils.py (harness/py2lean_c09.py, notes/SRCTIE.md section 8).
+# Lists of an ABSTRACT item type `α` (keys `κ`, values `β`); `kinds` = the declared kind of a parameter, by which the
+# front-end decides the dispatch tests of the function head (`callable(key)`, `key is None`, `isinstance(src, str)` ...);
+# a parameter of kind 'none' is the constant None and is not a Lean parameter.  `locals` = declared types of the locals
+# (`Set κ` / `Iter α` / `Dict κ | List β` are lists at run time, `Fn α → κ` a function, `KwFill α` a `**kw` holding at
+# most the key `kw_key`).  `ops` = spec-declared operations passed as leading parameters.  chunk_ranges stays in
+# Src_iterutils.lean (base translator), byte-identical.
+_C09_COMMON = {'module': 'boltons.iterutils', 'gen_file': 'iterutils_c09', 'translator': 'py2lean_c09', 'raises': True}
+_C09 = [
+    dict(_C09_COMMON, qualname='_validate_positive_int', lean_name='validate_positive_int', kind='function',
+         params={'value': 'Int', 'name': 'Msg', 'strictly_positive': 'Bool'}, result='Int',
+         defaults={'strictly_positive': 'true'}, tie_theorem='C09.src_validate_positive_int_eq_model'),
+    dict(_C09_COMMON, qualname='chunked_iter', lean_name='chunked_iter', kind='generator',
+         tparams=['α'], classes=['PyRtC09.PyNone α'],
+         params={'src': 'List α', 'size': 'Int', 'kw': 'KwFill α'}, kinds={'src': 'list'}, kw_key='fill',
+         locals={'do_fill': 'Bool', 'fill_val': 'α', 'postprocess': 'Fn List α → List α', 'src_iter': 'Iter α',
+                 'cur_chunk': 'List α', 'lc': 'Int'},
+         helpers={'_validate_positive_int': 'validate_positive_int'}, result='List α',
+         tie_theorem='C09.src_chunked_iter_eq_model'),
+]
+SPECS['C09'] = SPECS['C09'] + _C09
